@@ -411,6 +411,24 @@ async def _interp(run: Run, sdef: dict, ctx: Context, ev: Any, rn: int, inv: Any
             await asyncio.Event().wait()
         elif op in ("on_cancel_stream", "on_cancel_sleep", "on_cancel_teardown"):
             pass  # markers: see _body's CancelledError branch
+        elif op == "self_cancel":
+            # ["self_cancel", mode, arg]: the body raises asyncio.CancelledError ITSELF while the run goes on (it awaits an inner
+            # task that was cancelled -- a misused cancel scope / timeout): its worker task ends cancelled, no step result exists.
+            #   "always"      - every execution          "k", [ks]   - executions whose input event carries one of these k
+            #   "first", n    - the first n executions of this step (counted by the harness)
+            mode = act[1] if len(act) > 1 else "always"
+            if mode == "k":
+                hit = getattr(ev, "k", None) in list(act[2])
+            elif mode == "first":
+                hit = sum(1 for r in run.trace.steps if r[0] == "enter" and r[1] == name) <= int(act[2])
+            else:
+                hit = True
+            if hit:
+                run.trace.steps.append(("self_cancel", name, uid, rn, asyncio.get_event_loop().time(),
+                                        {"wid": _worker_id_of(run, name, ev), "at_call": len(run.trace.calls)}))
+                inner = asyncio.ensure_future(asyncio.sleep(3600))
+                inner.cancel()
+                await inner
         elif op == "send":
             if run.spec.get("det_uids"):
                 nsent = sum(1 for a in sdef["script"][: sdef["script"].index(act)] if a[0] == "send")
@@ -741,7 +759,7 @@ def run_spec(spec: dict, seed: int, replay_actions: list[int] | None = None, max
                 try:
                     run.trace.snapshots.append({"after_end": True, "at_call": len(run.trace.calls), "vtime": loop.time(),
                                                 "dict": json.loads(json.dumps(handler.ctx.to_dict())), "stream_len": len(run.trace.stream),
-                                                "steps_len": len(run.trace.steps)})
+                                                "steps_len": len(run.trace.steps), "live": _live_dict(run)})
                 except Exception as e:
                     run.trace.notes.append(f"snapshot after end failed: {type(e).__name__}: {e}")
             # give the consumer a bounded chance to finish
@@ -832,6 +850,16 @@ def _quiescent(run: Run, loop: VLoop) -> bool:
     return True
 
 
+def _live_dict(run: Run) -> dict | None:
+    """the state the engine itself holds right now (the runner's `state`), serialised like ctx.to_dict() serialises the rebuilt one"""
+    try:
+        from workflows.context.serializers import JsonSerializer
+
+        return json.loads(json.dumps(run.runner.state.to_serialized(JsonSerializer()).model_dump(mode="python"), default=str))
+    except Exception:  # noqa: BLE001
+        return None
+
+
 def _do_external(run: Run, ext: dict, loop: VLoop) -> None:
     h = run.handler
     op = ext["op"]
@@ -846,7 +874,7 @@ def _do_external(run: Run, ext: dict, loop: VLoop) -> None:
         try:
             d = h.ctx.to_dict()
             run.trace.snapshots.append({"at_call": len(run.trace.calls), "vtime": loop.time(), "dict": json.loads(json.dumps(d)),
-                                        "stream_len": len(run.trace.stream),
+                                        "stream_len": len(run.trace.stream), "live": _live_dict(run),
                                         "steps_len": len(run.trace.steps), "remaining": [dict(x) for x in run.externals]})
         except Exception as e:
             run.trace.notes.append(f"snapshot failed: {type(e).__name__}: {e}")
@@ -856,7 +884,7 @@ def _do_external(run: Run, ext: dict, loop: VLoop) -> None:
             d = h.ctx.to_dict()
             info = _runner_info(run)
             run.trace.snapshots.append({"at_call": len(run.trace.calls), "vtime": loop.time(), "dict": json.loads(json.dumps(d)),
-                                        "stream_len": len(run.trace.stream), "steps_len": len(run.trace.steps), "stopped": True,
+                                        "stream_len": len(run.trace.stream), "steps_len": len(run.trace.steps), "stopped": True, "live": _live_dict(run),
                                         "heap": [(type(t).__name__, getattr(getattr(t, "event", None), "uid", None)) for (_a, _s, t) in info.get("heap", [])],
                                         "buffer": [type(t).__name__ for t in info.get("buffer", [])],
                                         "mailbox": [type(t).__name__ for t in info.get("mailbox", [])]})
